@@ -317,8 +317,17 @@ def suite_geos(ctx):
              ("sector_nw_limb_cols_flipped", kc.mk_area(geos, 30, 30, (-0.3e6, 0.8e6, -4.8e6, 5.2e6))),
              ("wide_strip", kc.mk_area(geos, 60, 8, (-5.4e6, 1.0e6, 5.4e6, 2.0e6))),
              ("tall_strip", kc.mk_area(geos, 8, 60, (1.0e6, -5.4e6, 2.0e6, 5.4e6)))]
+    # scanning geometry of the GOES-R / Himawari family (sweep axis x), full disk and parts of it
+    goes = {"proj": "geos", "lon_0": -75.0, "h": 35786023.0, "ellps": "GRS80", "sweep": "x"}
+    areas += [("goes_full_disk_sweep_x", kc.mk_area(goes, 60, 60, (-5434894.9, -5434894.9, 5434894.9, 5434894.9))),
+              ("goes_north_third_sweep_x", kc.mk_area(goes, 60, 20, (-5434894.9, 1.8e6, 5434894.9, 5434894.9))),
+              ("goes_conus_like_sweep_x", kc.mk_area(goes, 50, 30, (-3.6e6, 1.5e6, 1.4e6, 4.6e6))),
+              # odd / even numbers of ring vertices: the northern strip and the eastern part of the first disk
+              ("north_strip", kc.mk_area(geos, 62, 24, (-5570248.4, 1393687.3, 5567248.0, 5570248.4))),
+              ("east_part", kc.mk_area(geos, 25, 62, (1.2e6, -5567248.0, 5567248.0, 5570248.4)))]
     for nm, a in areas:
-        for k in (None, 4, 10, 21, 50):
+        new_family = nm.startswith("goes_") or nm in ("north_strip", "east_part")
+        for k in ((None, 4, 10, 21, 50) if not new_family else (None, 12, 16, 20, 21, 24, 30, 36, 50)):
             inp = {"geometry": "geos_" + nm, "vertices_per_side": k}
             try:
                 with warnings.catch_warnings():
@@ -350,6 +359,36 @@ def suite_geos(ctx):
             ex0, ex1, ey0, ey1 = min(e[0], e[2]), max(e[0], e[2]), min(e[1], e[3]), max(e[1], e[3])
             if not (np.all(x >= ex0 - tol) and np.all(x <= ex1 + tol) and np.all(y >= ey0 - tol) and np.all(y <= ey1 + tol)):
                 probs.append("a boundary vertex lies outside the area's extent")
+            # the ring encloses the footprint (extent within the Earth disk), judged in the projection plane: every pixel centre
+            # that is on the disk by more than the chord error of a k-vertex disk polygon is inside the ring, and the ring's
+            # area lies between that of the extent within the inscribed ellipse and within the disk
+            if k is not None and np.all(np.isfinite(x)) and len(x) >= 3:
+                import shapely
+                from shapely.geometry import Polygon, box
+                from pyresample.geometry import get_geostationary_angle_extent
+                from pyresample.utils.proj4 import get_geostationary_height
+                xa_, ya_ = get_geostationary_angle_extent(a)
+                h_ = get_geostationary_height(a.crs)
+                ring = Polygon(np.c_[x, y])
+                if not ring.is_valid:
+                    ring = ring.buffer(0)
+                fin_ = math.cos(math.pi / k) * (1 - 0.002)
+                cx_, cy_ = a.get_proj_coords()
+                rad2 = (cx_ / (xa_ * h_)) ** 2 + (cy_ / (ya_ * h_)) ** 2
+                sel = rad2 <= fin_ ** 2
+                if sel.any():
+                    pts = shapely.points(np.asarray(cx_)[sel], np.asarray(cy_)[sel])
+                    inside = shapely.contains(ring.buffer(1e-6 * xa_ * h_), pts)
+                    if not inside.all():
+                        j = int(np.flatnonzero(~inside)[0])
+                        probs.append(f"{int((~inside).sum())} of {int(sel.sum())} pixel centres safely on the Earth disk lie outside the boundary ring "
+                                     f"(e.g. x={float(np.asarray(cx_)[sel][j]):.0f}, y={float(np.asarray(cy_)[sel][j]):.0f})")
+                tt = np.linspace(0, 2 * np.pi, 1440, endpoint=False)
+                rect = box(ex0, ey0, ex1, ey1)
+                a_hi = rect.intersection(Polygon(np.c_[np.cos(tt) * xa_ * h_, np.sin(tt) * ya_ * h_])).area
+                a_lo = rect.intersection(Polygon(np.c_[np.cos(tt) * xa_ * h_ * fin_, np.sin(tt) * ya_ * h_ * fin_])).area
+                if not (a_lo * (1 - 1e-6) <= ring.area <= a_hi * (1 + 1e-6)):
+                    probs.append(f"planar area of the ring {ring.area:.4g} m2 is not between that of the extent within the inscribed ellipse ({a_lo:.4g}) and within the disk ({a_hi:.4g})")
             if probs:
                 symptom = "orientation" if any(p_.startswith("ring not clockwise") for p_ in probs) and len(probs) == 1 else "other"
                 ctx.fail("AreaDefinition._get_geostationary_boundary_sides", "; ".join(probs), inp, {"area": area_impl, "n": len(clon)},
